@@ -387,8 +387,8 @@ def framing_cases(tier, rng, thorough):
 
 
 def fuzz_cases(tier, rng, thorough):
-    n_rand = 80 if thorough else 40
-    n_mut = 900 if thorough else 320
+    n_rand = 80 if thorough else 30
+    n_mut = 900 if thorough else 240
     for c0 in CONFIGS:
         # (b) random bytes
         for _ in range(n_rand):
@@ -510,10 +510,36 @@ def f3_cases(tier, rng, thorough):
         yield _case(jraw, data, sc.cuts_to_chunks(data, [len(data) // 2]), BIG2, ["f3-witness"], known=sig, nontrivial=True)
 
 
+def boundary_cases(tier, rng, thorough):
+    """separator-framed serializers at the limit boundary after earlier traffic: a frame that fills the receive buffer
+    exactly (so the last buffer cells hold a separator), then an over-long frame that ends with a proper prefix of the
+    separator one byte before the buffer is full, then the rest of the separator and a short frame.  What the limit
+    error carries as remainder (and hence what is parsed next) must not depend on stale buffer contents."""
+    for c0 in CONFIGS:
+        if c0.sep is None or c0.family not in s2.HAS_BUF:
+            continue
+        filler = b"b" if c0.family == 0 else b"A"
+        L, sep = c0.limit, c0.sep
+        for c in (c0, c0.with_debug()):
+            for first_len in ((L, L - 1, L - 2) if thorough else (L, L - 1)):
+                frame1 = filler * (first_len - len(sep)) + sep
+                for k in range(0, len(sep)):
+                    for over_len in ((L - 1, L, L - 2) if thorough else (L - 1, L)):
+                        over = filler * (over_len - k) + sep[:k]
+                        tail = sep[k:] + filler * 2 + sep
+                        stream = frame1 + over + tail
+                        chunkings_ = [[frame1, over, tail], [frame1, over + tail], [frame1 + over, tail],
+                                      [frame1] + [over[i:i + 1] for i in range(len(over))] + [tail]]
+                        for ch in chunkings_:
+                            yield _case(c, frame1, ch, rng.choice([1024, L, 7]), ["limit-boundary", f"seplen{len(sep)}", f"k{k}"],
+                                        nontrivial=True)
+
+
 def cases(tier, rng, escalate):
     thorough = tier == "thorough" or escalate
     del _YIELDED[:]
     yield from framing_cases(tier, rng, thorough)
+    yield from boundary_cases(tier, rng, thorough)
     yield from fuzz_cases(tier, rng, thorough)
     yield from extreme_cases(tier, rng, thorough)
     yield from f3_cases(tier, rng, thorough)
@@ -586,9 +612,11 @@ def oracle(inp):
             if "copy" in modes:
                 consumer = StreamDataConsumer(StreamProtocol(s2.make_serializer(family, cfg, impl)))
                 before = 0          # bytes handed to the parser since its last event
+                fed = b""
                 for ch in chunks:
                     arg = ch
                     before += len(ch)
+                    fed += ch
                     for _ in range(before + 3):
                         try:
                             consumer.next(arg)
@@ -598,6 +626,8 @@ def oracle(inp):
                             after = len(consumer.get_buffer())
                             if bytes(exc.remaining_data) != bytes(consumer.get_buffer()):
                                 return f"remainder: copying consumer of {name} kept a buffer different from the error's remaining_data"
+                            if not fed.endswith(bytes(exc.remaining_data)):
+                                return f"remainder: parse error of the copying consumer of {name} carries bytes that are not the unread end of what was received"
                             if not after < before:
                                 return f"no-progress: copying consumer of {name}: parse error consumed no byte ({before} -> {after})"
                         except Exception as exc:
@@ -608,6 +638,7 @@ def oracle(inp):
                         return f"no-progress: copying consumer of {name} keeps producing events"
             if "buf" in modes:
                 consumer = BufferedStreamDataConsumer(BufferedStreamProtocol(s2.make_serializer(family, cfg, impl)), hint)
+                fed = b""
                 for ch in chunks:
                     view = memoryview(ch)
                     held = 0
@@ -620,6 +651,7 @@ def oracle(inp):
                             n = min(mv.nbytes, len(view))
                             mv[:n] = view[:n]
                         del wb
+                        fed += bytes(view[:n])
                         view = view[n:]
                         arg = n
                         avail = None       # bytes the failing parse had at its disposal: unknown for the first event
@@ -630,6 +662,13 @@ def oracle(inp):
                                 break
                             except StreamProtocolParseError as exc:
                                 rem = len(exc.remaining_data)
+                                if not fed.endswith(bytes(exc.remaining_data)):
+                                    return (f"remainder: parse error of the buffered consumer of {name} carries bytes that are not "
+                                            f"the unread end of what was received ({bytes(exc.remaining_data)[:24]!r})")
+                                kept = (consumer.get_value() or b"")[:rem]
+                                if rem and kept != bytes(exc.remaining_data):
+                                    return (f"remainder: buffered consumer of {name} kept {kept[:24]!r} for the next parse but the "
+                                            f"error carries {bytes(exc.remaining_data)[:24]!r}")
                                 if avail is not None and not rem < avail:
                                     return f"no-progress: buffered consumer of {name}: parse error consumed no byte ({avail} -> {rem})"
                                 avail = rem
